@@ -410,10 +410,12 @@ Definition try_restarted (s : kstate) (u : nat) (cur_snd : ref) : R :=
   | Some a =>
       match a_children a, a_st a with
       | [], Restarting =>
-          handle s u TT 0%nat cur_snd >>= (fun s1 =>
+          (* the new instance is obtained from the provider FIRST (a provider that fails must not leave behind an old instance
+             that has already handled its own OnTerminated), then the old instance handles its last two messages *)
+          let '(s0, inst) := provide s (a_tok a) in
+          handle s0 u TT 0%nat cur_snd >>= (fun s1 =>
           handle s1 u TTS 0%nat cur_snd >>= (fun s2 =>
-            let '(s3, inst) := provide s2 (a_tok a) in
-            let s4 := upd_actor s3 u (fun b => w_st Alive (w_inst inst b)) in
+            let s4 := upd_actor s2 u (fun b => w_st Alive (w_inst inst b)) in
             let s5 := deliver_sys s4 (a_tok a) (a_tok a) SResume in
             (* the fresh instance starts its life within the same step: OnRestarted and OnLaunch are handled before
                anything that was already queued when the restart completed *)
